@@ -37,10 +37,15 @@ def run(ctx):
     thorough = ctx.thorough()
     bound = 3 if thorough else 2
     nsh = 16
+    # regression executions of past findings first
+    corpus(ctx, exe, driver)
     jobs = []
     for i in range(nsh):
-        jobs.append(("exh:%d" % i, [exe, "exh", str(bound), str(i), str(nsh), str(ctx.seed), "1500" if thorough else "200000", "all" if thorough else "rot"]))
-    nr = 8000 if thorough else 800
+        # complete enumeration to 2 preemptions; thorough adds the 3-preemption enumeration, stopped after 300 executions per program
+        jobs.append(("exh2:%d" % i, [exe, "exh", "2", str(i), str(nsh), str(ctx.seed), "200000", "rot"]))
+        if thorough:
+            jobs.append(("exh3:%d" % i, [exe, "exh", "3", str(i), str(nsh), str(ctx.seed), "300", "rot"]))
+    nr = 4000 if thorough else 800
     for i in range(8):
         jobs.append(("rnd:%d" % i, [exe, "rnd", str(nr), str(i), "8", str(ctx.seed)]))
     ctx.log("proofs + builds done; running %d G1 jobs" % len(jobs))
@@ -58,7 +63,8 @@ def run(ctx):
                 "the oracle (kind=spec) checks the implementation's own observations: every loaded value is well formed (payload self-check) and is one "
                 "of the published values, not older than the newest one published when the load started, per reader never older than before, "
                 "one producer at a time, final state = last update. distinct = distinct event traces; non-trivial = at least one store/successful CAS"
-                % (bound, "1,2,3,9,65,129", "all six for every program; the enumeration of one program stops after 1500 executions" if thorough else "two of the six per program, rotating (all six covered)"),
+                % (2, "1,2,3,9,65,129", "two of the six per program, rotating (all six covered)"
+                   + ("; thorough adds the enumeration to 3 preemptions, stopped after 300 executions per program" if thorough else "")),
         "exhaustive": False,
     })
     smp = vlib.extract_case(jobs[0][1], driver, 3)
@@ -95,7 +101,9 @@ def run(ctx):
         del ctx.cov["model_branches_exercised"][k]
     ctx.cov["happens_before_analysis"] = {
         "rule": "C11 release/acquire happens-before (vector clocks, release sequences through RMWs) over every compared execution, with the "
-                "memory orderings observed in the trace: is each plain write of a data cell ordered after the plain reads / writes of that cell by other threads?",
+                "memory orderings observed in the trace: is each plain write of a data cell ordered after the plain reads / writes of that cell by other threads? "
+                "Reported as a violation: an unordered VALIDATED read (fixed in /repo by 0bff03d, fetch_add AcqRel; must stay 0), an unordered publication. "
+                "NOT reported: a lapped reader's copy (discarded / still in flight when the writer re-uses the cell) -- the generic sequence-lock caveat, c12_no_racy_read_refuted",
         "counters": dict(sorted(hb.items()))}
     if hb.get("hb_read_unordered_with_cell_write", 0) or hb.get("hb_cell_write_unordered_with_cell_write", 0):
         ctx.violation("a cell copy is not ordered after the write that published it / two cell writes are unordered", {"counters": hb}, key="seqlock:publish-not-ordered")
@@ -103,9 +111,8 @@ def run(ctx):
         n, prog, sch = (hbw[0][1].split(":") + ["", "", ""])[:3] if hbw else ("", "", "")
         ctx.violation(
             "memory ordering: a VALIDATED load's copy of a cell is not ordered (C11 happens-before) before the writer's next write into that cell: "
-            "the reader's validating CAS(w,w,AcqRel) releases, but the writer never acquires (store: write_cell.load(Relaxed) ... fetch_add(1, Release); "
-            "__internal_update_write_cell likewise) -- a data race on the cell; on hardware that lets the later plain write pass the earlier "
-            "release RMW (ARMv8 allows it) the validated value can be a mixture. %d of %d analysed executions; shortest: size %s program %s schedule %s"
+            "the reader's validating CAS(w,w,AcqRel) releases, but the writer does not acquire (store / __internal_update_write_cell: fetch_add must be AcqRel) -- a data race on the cell; on hardware that lets the later plain write pass the earlier "
+            "release RMW (ARMv8 allows it) the validated value can be a mixture (regression of the repair 0bff03d?). %d of %d analysed executions; shortest: size %s program %s schedule %s"
             % (hb.get("hb_executions_with_unordered_validated_read", 0), hb.get("hb_executions_analysed", 0), n, prog, sch),
             {"counters": hb, "size": n, "program": prog, "schedule": sch,
              "how_to_rerun": "%s one %s '%s' %s | %s   (EXTRA hb_* lines; C12_WHATIF=fadd_acqrel or load_acquire in the driver's environment re-runs the analysis with the writer acquiring: 0 remain)" % (exe, n, prog, sch, driver),
@@ -116,7 +123,7 @@ def run(ctx):
         ctx.violation("model branches never exercised by the tie (it says nothing about them): %s" % ",".join(missing), {"missing": missing}, no_input=True)
 
     # real threads, no gate: the only place where the reader's raw copy really overlaps a store
-    ms = 2000 if thorough else 200
+    ms = 1000 if thorough else 200
     stress = []
     for n in SIZES:
         rc, out = vlib.sh([exe, "stress", str(n), str(ms), "2"], timeout=120)
@@ -147,6 +154,30 @@ def run(ctx):
     ]
 
 
+def corpus(ctx, exe, driver):
+    """corpus/C12/*.json: executions that exhibited a (since repaired) finding; each must now match the model, satisfy
+    the oracle and show no unordered validated read"""
+    import glob, json, shlex
+    n = 0
+    for f in sorted(glob.glob(os.path.join(VERIF, "corpus", "C12", "*.json"))):
+        d = json.load(open(f))
+        cmd = " ".join(shlex.quote(a) for a in [exe] + d["harness_args"]) + " 2>/dev/null | " + driver
+        rc, out = vlib.sh("set -o pipefail; " + cmd, timeout=300)
+        n += 1
+        m = re.search(r"SUMMARY cases=(\d+) ops=(\d+) mismatches_model=(\d+) mismatches_spec=(\d+)", out)
+        bad = re.search(r"EXTRA hb_cell_write_unordered_with_validated_read (\d+)", out)
+        if rc != 0 or not m or int(m.group(1)) != 1:
+            ctx.violation("corpus execution %s could not be replayed" % d["id"], {"cmd": cmd, "rc": rc, "out": out[-800:]}, no_input=True)
+        elif bad or int(m.group(4)):
+            ctx.violation("regression: corpus execution %s fails again: %s" % (d["id"], d["what"]),
+                          {"how_to_rerun": cmd, "out": [l for l in out.split("\n") if l.startswith(("MISMATCH", "EXTRA hb_"))]},
+                          key="seqlock:validated-read-unordered-with-cell-reuse")
+        elif int(m.group(3)):
+            ctx.violation("corpus execution %s: trace no longer matches the model" % d["id"],
+                          {"how_to_rerun": cmd, "out": [l for l in out.split("\n") if l.startswith("MISMATCH")]}, no_input=True)
+    ctx.cov["corpus_executions_replayed"] = n
+
+
 def g3(ctx):
     """API level: at most one Writer per service, at most one EntryHandleMut per key (sequential histories
     through the real iceoryx2 blackboard API against model/Blackboard.v)."""
@@ -165,8 +196,8 @@ def g3(ctx):
     jobs = []
     for i in range(nsh):
         jobs.append(("g3exh:local:%d" % i, [exe, "exh", "6" if thorough else "5", str(i), str(nsh), str(ctx.seed), "local"]))
-        jobs.append(("g3exh:ipc:%d" % i, [exe, "exh", "5" if thorough else "4", str(i), str(nsh), str(ctx.seed), "ipc"]))
-        jobs.append(("g3rnd:%d" % i, [exe, "rnd", "5000" if thorough else "250", str(i), str(nsh), str(ctx.seed), "both"]))
+        jobs.append(("g3exh:ipc:%d" % i, [exe, "exh", "4", str(i), str(nsh), str(ctx.seed), "ipc"]))
+        jobs.append(("g3rnd:%d" % i, [exe, "rnd", "1000" if thorough else "250", str(i), str(nsh), str(ctx.seed), "both"]))
     r = vlib.run_pipelines(jobs, driver, timeout=3000 if thorough else 1500)
     ctx.cov["g3_blackboard"] = {
         "evaluations": r["cases"], "ops": r["ops"], "distinct_nontrivial": r["distinct_nontrivial"], "opcount": r["opcount"],
